@@ -36,6 +36,7 @@ Section NodeInd.
   Hypothesis HJz : forall p c a, P c -> P (Jz p c a).
   Hypothesis HExit : forall p, P (ExitRepeat p).
   Hypothesis HTell : forall p o body, P o -> Forall P body -> P (Tell p o body).
+  Hypothesis HObjRef : forall k s p i, P i -> P (ObjRef k s p i).
   Fixpoint node_ind2 (n : node) : P n :=
     let go := fix go (l : list node) : Forall P l :=
       match l with [] => Forall_nil P | x :: r => Forall_cons x (node_ind2 x) (go r) end in
@@ -64,6 +65,7 @@ Section NodeInd.
     | Jz p c a => HJz p c a (node_ind2 c)
     | ExitRepeat p => HExit p
     | Tell p o body => HTell p o body (node_ind2 o) (go body)
+    | ObjRef k s p i => HObjRef k s p i (node_ind2 i)
     end.
 End NodeInd.
 
@@ -94,6 +96,9 @@ Lemma name_of_mutg ml n : name_of (mutg ml n) = name_of n.
 Proof.
   destruct n; try reflexivity; try (destruct k; reflexivity); try (cbn [mutg]; destruct (mutg ml n); reflexivity).
 Qed.
+
+Lemma is_const_node_mutg ml n : is_const_node (mutg ml n) = is_const_node n.
+Proof. destruct n; try reflexivity; try (destruct k; reflexivity); try (cbn [mutg]; destruct (mutg ml n); reflexivity). Qed.
 
 (* the symbol name, when the node is a Symbol *)
 Definition sym_name (n : node) : option string := match n with Leaf KSymbol s _ _ => Some s | _ => None end.
@@ -144,14 +149,14 @@ Lemma visited_snoc ml nm b x :
 Proof.
   unfold visited. destruct (ml && String.eqb nm "sound") eqn:Es.
   - rewrite map_but_last_snoc, gv_update_snoc.
-    destruct x as [k s p f| | | | | | | | | | | | | | | | | | | | |];
+    destruct x as [k s p f| | | | | | | | | | | | | | | | | | | | | |];
       try (eexists; split; [reflexivity|split; [reflexivity| intros; discriminate]]).
     destruct k; try (eexists; split; [reflexivity|split; [reflexivity| intros; discriminate]]).
     destruct (mem_str (lower nm) LIST_FUNCTIONS); eexists; (split; [reflexivity|split; [reflexivity| intros; discriminate]]).
   - rewrite map_app. cbn [map].
     destruct (sym_name x) as [sn|] eqn:Ex.
     + (* a symbol stays a symbol of the same name *)
-      destruct x as [k s p f| | | | | | | | | | | | | | | | | | | | |]; try discriminate Ex.
+      destruct x as [k s p f| | | | | | | | | | | | | | | | | | | | | |]; try discriminate Ex.
       destruct k; try discriminate Ex. cbn [sym_name] in Ex. injection Ex as <-.
       cbn [mutg]. rewrite gv_update_snoc.
       destruct (mem_str (lower nm) LIST_FUNCTIONS) eqn:El.
@@ -177,7 +182,7 @@ Lemma last_opt_snoc {A} (l : list A) x : last_opt (l ++ [x]) = Some x.
 Proof. unfold last_opt. rewrite rev_app_distr. reflexivity. Qed.
 
 Lemma sym_single_cons2 (a c : node) l : single_sym (a :: c :: l) = None.
-Proof. unfold single_sym. destruct a as [k ? ? ?| | | | | | | | | | | | | | | | | | | | |]; try reflexivity. destruct k; reflexivity. Qed.
+Proof. unfold single_sym. destruct a as [k ? ? ?| | | | | | | | | | | | | | | | | | | | | |]; try reflexivity. destruct k; reflexivity. Qed.
 
 Lemma single_sym_visited_go ml ops : single_sym (visited ml "go" ops) = single_sym ops.
 Proof.
@@ -186,10 +191,10 @@ Proof.
   rewrite map_app. cbn [map]. rewrite gv_update_snoc.
   change (mem_str (lower "go") LIST_FUNCTIONS) with false.
   assert (E : match mutg ml x with Leaf KSymbol s p _ => map (mutg ml) b ++ [mutg ml x] | _ => map (mutg ml) b ++ [mutg ml x] end
-              = map (mutg ml) b ++ [mutg ml x]) by (destruct (mutg ml x) as [k ? ? ?| | | | | | | | | | | | | | | | | | | | |]; try reflexivity; destruct k; reflexivity).
+              = map (mutg ml) b ++ [mutg ml x]) by (destruct (mutg ml x) as [k ? ? ?| | | | | | | | | | | | | | | | | | | | | |]; try reflexivity; destruct k; reflexivity).
   cbv iota. rewrite E.
   destruct b as [|y b]; cbn [map app].
-  - unfold single_sym. destruct x as [k s p f| | | | | | | | | | | | | | | | | | | | |]; try reflexivity; try (cbn [mutg]; destruct (mutg ml _); reflexivity).
+  - unfold single_sym. destruct x as [k s p f| | | | | | | | | | | | | | | | | | | | | |]; try reflexivity; try (cbn [mutg]; destruct (mutg ml _); reflexivity).
   - destruct b; cbn [map app]; rewrite !sym_single_cons2; reflexivity.
 Qed.
 Lemma go_sym_visited ml nm ops : go_sym nm (visited ml nm ops) = go_sym nm ops.
@@ -317,6 +322,7 @@ Proof.
   - reflexivity.
   - reflexivity.
   - intros p o body Ho Hb sp ind. cbn [mutg gen_lingo_sp]. rewrite Ho. rewrite (Forall_PL_map ml body Hb false (S ind)). reflexivity.
+  - intros k s p i Hi sp ind. cbn [mutg gen_lingo_sp]. rewrite is_const_node_mutg, Hi. reflexivity.
 Qed.
 
 (* ---- gen_js is blind to the updates ---- *)
@@ -415,6 +421,7 @@ Proof.
   - reflexivity.
   - reflexivity.
   - intros p o body Ho Hb ind fm. cbn [mutg gen_js]. rewrite Ho, wrap_paren_mutg. rewrite (Forall_PJ_map ml body Hb (S ind) fm). reflexivity.
+  - intros k s p i Hi ind fm. cbn [mutg gen_js]. rewrite is_const_node_mutg, Hi. reflexivity.
 Qed.
 
 (* ---- script level ---- *)
